@@ -126,6 +126,7 @@ def run(res, args):
         ok1, _, sdoc = docmp.doc_of_expat(sr)
         norm = docmp.Norm(d, lang)
         norm.strict_lineends = True      # the decoded side is the parser's events, not re-read XML
+        norm.dst_binary_raw = True
         exc_sc = docmp.excuses_scoped(norm, sdoc)
         exc = set(exc_sc)
         if (not sp or not sp.startswith('S 1 1 ;')) and exc:
